@@ -28,9 +28,9 @@ RULE = (
     "Class = (operation, family, kind, named?, pre-existing same family+name?, document type)."
 )
 SHARDS = {"quick": 16, "thorough": 16}
-TIMEOUT = {"quick": 400, "thorough": 3600}
+TIMEOUT = {"quick": 400, "thorough": 7200}
 MIN_EVALS = {"quick": 6000, "thorough": 150000}
-CASES = {"quick": 120, "thorough": 3000}
+CASES = {"quick": 120, "thorough": 30000}
 ASSUMPTIONS = [
     "automatic and common styles of one family share one name space: the same family+name is not planted in both kinds by the generator (generated automatic names must avoid both on their own)",
     "rule table: common -> styles.xml/office:styles; automatic -> content.xml/office:automatic-styles; default -> styles.xml/office:styles as style:default-style; master-page -> styles.xml/office:master-styles; page-layout -> styles.xml/office:automatic-styles; font-face -> content.xml (default: styles.xml) office:font-face-decls",
